@@ -587,6 +587,7 @@ func ruleC06_1(c *Ctx, r *Rep) {
 		return
 	}
 	n := 0
+	r.noValueUse(c, "C06.1", dl)
 	for _, ci := range c.callersOf(dl) {
 		o := c.Key(top(ci.Parent()))
 		n++
